@@ -984,6 +984,15 @@ FORMS = [
     ("axpy(-alpha)", "LP", "VEC", "blas::axpy_n(-al, x.begin(), n, y.begin());", [
         ("y -= axpy(alpha, x)", "y -= blas::axpy(al, std::as_const(x));"),
     ]),
+    # a lazy range is an object with a history: after `ax *= s` every consumer of the range must see the rescaled factor (eighth seed round: the
+    # factor cached at construction for `+=` / `-=` while `*=` rescales another field)
+    ("axpy(alpha*alpha)", "LP", "VEC", "blas::axpy_n(al*al, x.begin(), n, y.begin());", [
+        ("ax = axpy(alpha, x); ax *= alpha; y += ax", "auto ax = blas::axpy(al, std::as_const(x)); ax *= al; y += ax;"),
+        ("ax = axpy(alpha, x); ax *= alpha; y = ax", "auto ax = blas::axpy(al, std::as_const(x)); ax *= al; y = ax;"),
+    ]),
+    ("axpy(-(alpha*alpha))", "LP", "VEC", "blas::axpy_n(-(al*al), x.begin(), n, y.begin());", [
+        ("ax = axpy(alpha, x); ax *= alpha; y -= ax", "auto ax = blas::axpy(al, std::as_const(x)); ax *= al; y -= ax;"),
+    ]),
     ("axpy(1)", "LP", "VEC", "blas::axpy_n(1.0, x.begin(), n, y.begin());", [
         ("axpy(x, y)", "blas::axpy(x, y);"),
         ("y += x", "y += x;"),
